@@ -238,6 +238,7 @@ def encIFail : IFail → String
   | .parse (.err k l) file upper => s!"err {perrKindStr k} {hx (locText file l upper)}"
   | .parse (.panic _) _ _ => "panic"
   | .notFound file upper => s!"err fileNotFound {hx (locText file 0 upper)}"
+  | .unreadable file upper => s!"err readFile {hx (locText file 0 upper)}"
   | .emptyInclude file line upper => s!"err emptyIncludeFile {hx (locText file line upper)}"
   | .outOfFuel => "unsupported"
 
@@ -420,6 +421,7 @@ def opCliMulti : Rd String := do
         | .error (.parse (.err _ l) _ _) =>
           some (files, trace, stats ++ [if mode == "run" then s!"err {l}" else "done"])
         | .error (.notFound ..) => some (files, trace, stats ++ [if mode == "run" then "err 0" else "done"])
+        | .error (.unreadable ..) => some (files, trace, stats ++ [if mode == "run" then "err 0" else "done"])
         | .error (.emptyInclude _ l _) =>
           some (files, trace, stats ++ [if mode == "run" then s!"err {l}" else "done"])
         | .ok lrecs =>
